@@ -98,11 +98,8 @@ func compareMatchers(a compat.Matcher, g compat.Matcher, s string, st func(strin
 		cmp("FindIndex", a.FindIndex(b), g.FindIndex(b))
 		cmp("FindReaderIndex", a.FindReaderIndex(strings.NewReader(s)), g.FindReaderIndex(strings.NewReader(s)))
 		cmp("FindReaderSubmatchIndex", a.FindReaderSubmatchIndex(strings.NewReader(s)), g.FindReaderSubmatchIndex(strings.NewReader(s)))
-		if utf8.ValidString(s) {
-			// on invalid UTF-8 the engine reports the text it decoded (U+FFFD), Go slices the raw bytes
-			cmp("FindString", a.FindString(s), g.FindString(s))
-			cmp("FindStringSubmatch", a.FindStringSubmatch(s), g.FindStringSubmatch(s))
-		}
+		cmp("FindString", a.FindString(s), g.FindString(s))
+		cmp("FindStringSubmatch", a.FindStringSubmatch(s), g.FindStringSubmatch(s))
 		cmp("FindStringIndex", a.FindStringIndex(s), g.FindStringIndex(s))
 		cmp("FindStringSubmatchIndex", a.FindStringSubmatchIndex(s), g.FindStringSubmatchIndex(s))
 		cmp("FindSubmatch", a.FindSubmatch(b), g.FindSubmatch(b))
@@ -115,10 +112,8 @@ func compareMatchers(a compat.Matcher, g compat.Matcher, s string, st func(strin
 			cmp("FindAllStringSubmatchIndex"+t, a.FindAllStringSubmatchIndex(s, n), g.FindAllStringSubmatchIndex(s, n))
 			cmp("FindAllSubmatch"+t, a.FindAllSubmatch(b, n), g.FindAllSubmatch(b, n))
 			cmp("FindAllSubmatchIndex"+t, a.FindAllSubmatchIndex(b, n), g.FindAllSubmatchIndex(b, n))
-			if utf8.ValidString(s) {
-				cmp("FindAllString"+t, a.FindAllString(s, n), g.FindAllString(s, n))
-				cmp("FindAllStringSubmatch"+t, a.FindAllStringSubmatch(s, n), g.FindAllStringSubmatch(s, n))
-			}
+			cmp("FindAllString"+t, a.FindAllString(s, n), g.FindAllString(s, n))
+			cmp("FindAllStringSubmatch"+t, a.FindAllStringSubmatch(s, n), g.FindAllStringSubmatch(s, n))
 		}
 	})
 	if in {
@@ -222,7 +217,11 @@ func buildC06(ast *gen.Node) (*c06Case, string) {
 func (c *c06Case) classify(s string) string {
 	// D12: named groups are numbered after unnamed ones unless MaintainCaptureOrder is given
 	if c.mixed && c.ordered != nil {
-		if d, in := compareMatchers(c.ordered, c.g, s, func(string) {}); d == nil && !in {
+		d, in := compareMatchers(c.ordered, c.g, s, func(string) {})
+		if in {
+			return "inconclusive" // the re-computation itself ran into a resource error
+		}
+		if d == nil {
 			return "re2-named-group-numbering"
 		}
 	}
@@ -352,7 +351,12 @@ func runC06(r *core.Run) int {
 				}
 			}
 			if d != nil {
-				if class := c.classify(s); class != "" {
+				class := c.classify(s)
+				if class == "inconclusive" {
+					l.Inconclusive("classification-resource-error")
+					continue
+				}
+				if class != "" {
 					if k := r.KnownClass(class); k != nil {
 						r.KnownHit(k.ID)
 						continue
@@ -374,6 +378,6 @@ func runC06(r *core.Run) int {
 	r.Extras["bounds"] = map[string]any{"patterns": nPat, "exhaustive_len": 3, "directed_inputs_per_pattern": nDirected, "n": []int{-1, 0, 1, 2, 3}, "methods": 22}
 	return r.Finish(
 		"patterns printed from random ASTs restricted to the RE2-common constructs (literals and escapes, ., classes incl. \\d\\w\\s, \\p{..}, POSIX names, ^ $ \\A \\z, (?m)(?s), capturing / (?:) / (?P<n>) / (?<n>) groups, alternation incl. empty branches, greedy and lazy quantifiers with counts up to 50 over non-nullable bodies; 5% with \\b/\\B); patterns Go rejects are skipped; every Matcher method (22, n in {-1,0,1,2,3}) of compat.Regexp (RE2 option) vs *regexp.Regexp on ASCII, multi-byte, invalid UTF-8 and empty inputs; evaluation = one (pattern,input); non-trivial = distinct (pattern,input) that Go matches",
-		[]string{"Go's regexp is the oracle", "text-returning methods are compared on valid UTF-8 only", "known divergences (Unicode \\b, named-group numbering) are suppressed only when the explained-by recomputation reproduces both engines"},
+		[]string{"Go's regexp is the oracle", "known divergences (Unicode \\b, named-group numbering) are suppressed only when the explained-by recomputation reproduces both engines"},
 		map[string]int64{"evaluations": 20000, "distinct_nontrivial": 5000, "method_FindAllStringSubmatchIndex(n=-1)": 20000})
 }
